@@ -32,7 +32,7 @@ pub fn generate(seed: u64, run: u64, _tier: Tier, st: &mut Stats) -> StreamCase 
         let b = build(
             &mut rw,
             &mut rf,
-            &BuildOpts { max_records: if t == 0 { 30 } else { 8 }, confine, clean_pct: 40, foreign_pct: 3, storage: Some(storage), stats_swarm: false, soup_pct: 6 },
+            &BuildOpts { max_records: if t == 0 { 30 } else { 8 }, confine, clean_pct: 40, foreign_pct: 3, storage: Some(storage), stats_swarm: false, soup_pct: 6, wide_records: 0 },
             st,
         );
         alphabet = b.swarm.id_alphabet;
